@@ -173,12 +173,15 @@ pub fn compare_backends(
                 if x == y {
                     continue;
                 }
-                let mut tol = 2f64.powi(-22) * x.abs().max(y.abs()) + 2f64.powi(-36) * mmax + 1e-44;
+                // 2 ulp of the result, plus: a first-pass sample that sits on an f32 rounding boundary may round
+                // differently after re-association (one ulp at the magnitude of the intermediate image, at most
+                // about 2*mmax), which the second pass passes on with sum|w| <= 2
+                let mut tol = 2f64.powi(-22) * x.abs().max(y.abs()) + 2f64.powi(-21) * mmax + 1e-44;
                 if alpha_div && img::has_alpha(pt) && i % nch != nch - 1 {
                     // colour = premultiplied / alpha: relative errors add, and absolute noise is amplified by 1/alpha
                     let ai = i - i % nch + nch - 1;
                     let al = img::get_comp(c, a, ai).abs().min(img::get_comp(c, b, ai).abs());
-                    tol = 2f64.powi(-20) * x.abs().max(y.abs()) + 2f64.powi(-34) * mmax * (1.0f64).max(1.0 / al.max(1e-30)) + 1e-44;
+                    tol = 2f64.powi(-20) * x.abs().max(y.abs()) + 2f64.powi(-19) * mmax * (1.0f64).max(1.0 / al.max(1e-30)) + 1e-44;
                 }
                 if !((x - y).abs() <= tol) {
                     return Some(format!(
@@ -230,10 +233,12 @@ fn check(tape: &[u8], ctx: &Ctx) -> Outcome {
             return o;
         }
     };
-    let src = exec::src_image(&spec, Placement::Heap);
+    // source and destination end flush against a PROT_NONE page: an over-read / over-write of a SIMD
+    // kernel past the end of the buffers kills the worker, which is reported as a failure of the case
+    let src = exec::src_image(&spec, Placement::GuardEnd);
     let mmax = max_abs(spec.pt, src.bytes());
     spec.ext = CpuExtensions::None;
-    let base = match exec::run_resize(&spec, src.bytes(), 0x5A, Placement::Heap) {
+    let base = match exec::run_resize(&spec, src.bytes(), 0x5A, Placement::GuardEnd) {
         Ok(r) => r,
         Err(p) => {
             if custom {
@@ -273,7 +278,7 @@ fn check(tape: &[u8], ctx: &Ctx) -> Outcome {
         }
         let mut s2 = spec.clone();
         s2.ext = ext;
-        let r = match exec::run_resize(&s2, src.bytes(), 0x5A, Placement::Heap) {
+        let r = match exec::run_resize(&s2, src.bytes(), 0x5A, Placement::GuardEnd) {
             Ok(r) => r,
             Err(p) => {
                 o.fail(format!("panic on {} but not on the portable back-end: {}", img::ext_name(ext), p));
